@@ -234,10 +234,15 @@ func emitReaderSwitch(sb *strings.Builder, fn, typ string, ms []*types.Func, ski
 // genArg synthesises a symbolic argument expression for a dhcpv4 constructor parameter.
 func genArg(t types.Type, variadic bool, q types.Qualifier, name string) (string, bool) {
 	ts := types.TypeString(t, q)
+	inList := false
 	one := func(ts string, i int) (string, bool) {
 		n := fmt.Sprintf("%q", fmt.Sprintf("%s.%d", name, i))
 		switch ts {
 		case "net.IP":
+			if inList && i == 0 {
+				// a list may hold an entry that is not an IPv4 address (a dual-stack resolver list)
+				return "net.IP(verifBytes(" + n + ", 16))", true
+			}
 			return "net.IP(verifBytes(" + n + ", 4))", true
 		case "net.IPMask":
 			return "net.IPMask(verifBytes(" + n + ", 4))", true
@@ -277,6 +282,7 @@ func genArg(t types.Type, variadic bool, q types.Qualifier, name string) (string
 	if variadic {
 		el := t.(*types.Slice).Elem()
 		es := types.TypeString(el, q)
+		inList = true
 		a, ok := one(es, 0)
 		b, _ := one(es, 1)
 		if !ok {
@@ -286,6 +292,7 @@ func genArg(t types.Type, variadic bool, q types.Qualifier, name string) (string
 	}
 	if sl, ok := t.(*types.Slice); ok && ts != "[]byte" {
 		es := types.TypeString(sl.Elem(), q)
+		inList = true
 		a, ok := one(es, 0)
 		b, _ := one(es, 1)
 		if !ok {
